@@ -119,7 +119,7 @@ impl<'a> ExpressionEvaluator<'a> {
                     ));
                 };
                 Ok(vec![DataType::Bool(Bool(
-                    matches!(evaluated[0], DataType::Null) || *negated,
+                    matches!(evaluated[0], DataType::Null) != *negated,
                 ))])
             }
             BoundExpression::Between {
@@ -138,7 +138,7 @@ impl<'a> ExpressionEvaluator<'a> {
                 };
 
                 Ok(vec![DataType::Bool(Bool(
-                    (inner[0] >= low[0] && inner[0] <= high[0]) || *negated,
+                    (inner[0] >= low[0] && inner[0] <= high[0]) != *negated,
                 ))])
             }
             BoundExpression::Exists { query, negated } => {
@@ -164,7 +164,7 @@ impl<'a> ExpressionEvaluator<'a> {
                     ));
                 };
                 Ok(vec![DataType::Bool(Bool(
-                    set.contains(&evaluated[0]) || *negated,
+                    set.contains(&evaluated[0]) != *negated,
                 ))])
             }
             BoundExpression::Subquery { query, result_type } => {
